@@ -16,7 +16,7 @@ EXPLANATION = (
     'generator, so they see the same set.  Restore\'s separate enumerator is judged under '
     'C20/C08.')
 ASSUMPTIONS = ['a trash entry is the pair files/N + info/N.trashinfo (spec)']
-MINIMUM = {'R09.1': 6, 'R09.2': 4, 'R09.3': 3, 'R09.4': 3, 'R09.5': 3, 'R09.6': 4}
+MINIMUM = {'R09.1': 6, 'R09.2': 4, 'R09.3': 3, 'R09.4': 3, 'R09.5': 3, 'R09.6': 4, 'R09.7': 3}
 SUFFIX = '.trashinfo'
 
 
@@ -283,3 +283,36 @@ def check(ctx):
                message='%s enumerates trash directories through %s, list through %s'
                        % (cmd, sorted(map(str, scanners[cmd])),
                           sorted(map(str, scanners['list']))))
+    # ---- R09.7 the readers take every $topdir/.Trash-$uid the writer uses: trash-put
+    # creates / enters it following links (makedirs, no link test), so a reader may ask
+    # "is it a directory" (following) but must not refuse it for being a symlink
+    for cmd in ('list', 'empty', 'rm'):
+        bb = ctx.graph(cmd)
+        gg = bb.g
+        seen_d = set()
+        for e in bb.nodes('probe'):
+            if e.data.get('prim') != 'os.listdir' or not e.data['args']:
+                continue
+            for a in flat(e.data['args'][0]):
+                parts = join_parts(a)
+                if not parts or len(parts) < 2 or not is_const(strip(parts[-1]), 'info'):
+                    continue
+                D = parts[0] if len(parts) == 2 else Call(JOIN[0], tuple(parts[:-1]), (), None)
+                if dir_kind(D) != '$topdir/.Trash-$uid' or (e.id, cid(D)) in seen_d:
+                    continue
+                seen_d.add((e.id, cid(D)))
+                d_ids = set(cid(x) for x in flat(D)) | {cid(D)}
+                bad = None
+                for c, pol, an in guards(bb, e.id):
+                    for t in walk(c):
+                        if isinstance(t, Call) and t.node is not None and \
+                                gg.n(t.node).kind == 'probe' and t.args and \
+                                not gg.n(t.node).data.get('follow') and \
+                                (alt_ids(t.args[0]) & d_ids):
+                            bad = gg.n(t.node)
+                ctx.ob('R09.7', '%s accepts $topdir/.Trash-$uid whenever it is a directory '
+                                '(following links, as trash-put does)' % cmd, bad is None,
+                       node=e, message='%s lists $topdir/.Trash-$uid only after the no-follow '
+                                       'test %s on it: a symlinked .Trash-$uid that trash-put '
+                                       'fills is invisible to %s'
+                                       % (cmd, bad.data['prim'] if bad else '', cmd))
